@@ -6,8 +6,6 @@ INVARIANTS
   MutationsDiffer
   TopEqualsField
   DiffConsistent
-  CmpImplLaws
-  EqImplEquivalence
   HashImplFunction
   Leads
 CHECK_DEADLOCK FALSE
